@@ -151,6 +151,12 @@ def run_property(prop, tier="quick", seed=0):
         rules.setdefault(rule, set()).add(inst)
 
     scratch_run = bool(os.environ.get("VERIF_NO_EVIDENCE"))  # mutant/self-test runs never touch evidence/
+    selftest_failed = []
+    if tier == "thorough" and not new and not scratch_run and not os.environ.get("VERIF_NO_SELFTEST"):
+        st = selftest(prop)
+        ctx.extra["selftest"] = st
+        if st.get("tree_is_reference"):
+            selftest_failed = st["not_reported"]
     os.makedirs(os.path.join(VERIF, "reports"), exist_ok=True)
     report_path = os.path.join(VERIF, "reports", prop + (".scratch.%d" % os.getpid() if scratch_run else "") + ".json")
     report = {
@@ -209,7 +215,72 @@ def run_property(prop, tier="quick", seed=0):
         print("KNOWN-FINDING: property=%s %s -- %s" % (prop, v.key, known_keys[v.key].get("what", v.msg)))
     for v in new:
         print("  violation %s\n    at %s\n    %s" % (v.key, v.where, v.msg))
+    if "selftest" in ctx.extra:
+        st = ctx.extra["selftest"]
+        print("  selftest: %d positive controls (mutants/ + seeded/) applied to scratch copies, %d reported, %d skipped%s"
+              % (st["applied"], st["reported"], len(st["skipped"]), "" if st["tree_is_reference"] else " (tree differs from the reference tree: informational)"))
     if new:
         print("VIOLATION property=%s replay=%s" % (prop, report_path))
         status = 1
+    elif selftest_failed:
+        print("ANALYSIS-ERROR property=%s selftest: positive control(s) %s not reported by the rules" % (prop, selftest_failed))
+        status = 2
     return status
+
+
+def selftest(prop, jobs=4):
+    """Positive controls (thorough tier): every stored mutant and seeded change of this property is applied to a scratch
+    copy of the repository (under $TMPDIR, removed afterwards) and the quick rules must report it.  A control whose patch
+    no longer applies is skipped.  Failures are fatal only on the reference tree the controls were verified against."""
+    import subprocess
+    import tempfile
+    import shutil
+    from concurrent.futures import ThreadPoolExecutor
+    todo = []
+    md = os.path.join(VERIF, "mutants", prop)
+    if os.path.isdir(md):
+        for f in sorted(os.listdir(md)):
+            if f.endswith(".patch"):
+                want = json.load(open(os.path.join(md, f[:-6] + ".json"))).get("expect_rules", [])
+                todo.append(("mutants/%s/%s" % (prop, f), want))
+    sd = os.path.join(VERIF, "seeded")
+    for d in sorted(os.listdir(sd)) if os.path.isdir(sd) else []:
+        mp = os.path.join(sd, d, "meta.json")
+        if os.path.exists(mp) and prop in (json.load(open(mp)).get("caught_by") or []):
+            todo.append(("seeded/%s/patch.diff" % d, []))
+    ref = {}
+    try:
+        ref = json.load(open(os.path.join(VERIF, "mutants", "VERIFIED.json")))
+    except (OSError, ValueError):
+        pass
+
+    def one(args):
+        i, (rel, want) = args
+        d = tempfile.mkdtemp(prefix="verif-selftest-")
+        try:
+            subprocess.check_call(["rsync", "-a", "--exclude", "target", "--exclude", ".git", extract.REPO + "/", d + "/"])
+            r = subprocess.run(["patch", "-p1", "-s", "-i", os.path.join(VERIF, rel)], cwd=d, capture_output=True, text=True)
+            if r.returncode != 0:
+                return (rel, "skipped", "patch does not apply to this tree")
+            env = dict(os.environ, VERIF_REPO=d, VERIF_NO_EVIDENCE="1", VERIF_CACHE=os.path.join(extract.CACHE, "mutslots", str(i % jobs)))
+            r = subprocess.run([os.path.join(VERIF, "check"), prop, "--tier", "quick"], cwd=VERIF, env=env, capture_output=True, text=True)
+            rules = {l.strip()[len("violation "):].split("|")[0] for l in r.stdout.splitlines() if l.strip().startswith("violation ")}
+            if r.returncode == 2:
+                return (rel, "skipped", "scratch copy could not be analysed: " + r.stdout.strip().splitlines()[-1][:200] if r.stdout.strip() else "analysis error")
+            ok = r.returncode == 1 and (not want or bool(set(want) & rules))
+            return (rel, "reported" if ok else "not-reported", sorted(rules))
+        finally:
+            shutil.rmtree(d, ignore_errors=True)
+    by_slot = {}
+    for i, t in enumerate(todo):
+        by_slot.setdefault(i % jobs, []).append((i, t))
+    res = []
+    with ThreadPoolExecutor(max_workers=jobs) as ex:
+        for out in ex.map(lambda lst: [one(x) for x in lst], by_slot.values()):
+            res.extend(out)
+    return {
+        "controls": len(todo), "applied": sum(1 for r in res if r[1] != "skipped"), "reported": sum(1 for r in res if r[1] == "reported"),
+        "not_reported": sorted(r[0] for r in res if r[1] == "not-reported"), "skipped": sorted([r[0], r[2]] for r in res if r[1] == "skipped"),
+        "tree_is_reference": ref.get("tree") == extract.tree_hash(), "reference_tree": ref.get("tree"),
+        "reported_rules": {r[0]: r[2] for r in sorted(res) if r[1] == "reported"},
+    }
